@@ -14,7 +14,7 @@ Sub-driver for M-PYSEQ.
            `setslice:a:b:c:V` `delslice:a:b:c` `imul:n` `reverse`     (a,b,c ∈ Int ∪ {N})
  set ops : `add:x` `discard:x` `remove:x` `pop:x|E` `clear` `update:V` `diffu:V` `interu:V`
            `symdiffu:V` `ior:0|1:V` `isub:0|1:V` `iand:0|1:V` `ixor:0|1:V`
- dict ops: `set:k:v` `del:k` `clear` `pop:k:0|1` `popitem` `setdefault:k:v` `update:P` `ior:P`
+ dict ops: `set:k:v` `del:k` `clear` `pop:k:0|1` `pop:k:i:x` (item x as default) `popitem` `setdefault:k:v` `update:P` `ior:P`
            `kset:v` `kremove:v`                                      (P = `k=v,k=v` | `-`)
  V: `L1.2` sized, `G1.2` iterator, `S` the collection itself, `X` not iterable
 -/
@@ -122,7 +122,8 @@ def parseDOp? (tok : String) : Option DOp :=
   | ["set", k, v] => do let k ← k.toNat?; let v ← v.toNat?; pure (.setitem k v)
   | ["del", k] => k.toNat?.map .delitem
   | ["clear"] => some .clear
-  | ["pop", k, h] => do let k ← k.toNat?; let h ← parseBool? h; pure (.pop k h)
+  | ["pop", k, h] => do let k ← k.toNat?; let h ← parseBool? h; pure (.pop k h none)
+  | ["pop", k, "i", x] => do let k ← k.toNat?; let x ← x.toNat?; pure (.pop k true (some x))
   | ["popitem"] => some .popitem
   | ["setdefault", k, v] => do let k ← k.toNat?; let v ← v.toNat?; pure (.setdefault k v)
   | ["update", p] => do let p ← parseDict? p; if dictOk p then pure (.update p) else none
